@@ -24,7 +24,8 @@ func c15Owners(r *RNG, n int) []string {
 	out := []string{"https://example.com", "https://example.com/", "http://example.com/~jane", "https://example.com/~jane/",
 		"https://example.com/inbox", "https://example.com/actors/inbox/", "https://example.com/a%2Fb", "https://example.com/caf%C3%A9/jane",
 		"https://myinbox", "https://inbox", "http://outbox", "https://followers", "https://replies", "https://likes/", "https://shares:8080",
-		"https://example.com/users/jane+doe", "https://example.com/c++/maintainers/", "https://example.com/tags/dislikes", "https://example.com/users/inbox", "https://shares.example.com/u/1"}
+		"https://example.com/users/\u212aelvin", "https://example.com/%E2%84%AAelvin/x", "https://example.com/\u0130nci", "https://example.com/%C4%B0nci/", "https://example.com/\u2126/\u023a",
+		"https://example.com/tags/c%23", "https://example.com/q%3Fa/b", "https://example.com/100%25/x", "https://example.com/users/jane+doe", "https://example.com/c++/maintainers/", "https://example.com/tags/dislikes", "https://example.com/users/inbox", "https://shares.example.com/u/1"}
 	for i := 0; i < n; i++ {
 		s := []string{"https", "http"}[r.Intn(2)] + "://" + r.Pick(hosts)
 		for k := r.Intn(4); k > 0; k-- {
